@@ -60,12 +60,22 @@ def snap(x, max_den=10 ** 4):
     return None
 
 
+INT_MAX = 2 ** 31 - 1
+
+
 def snap_or_approx(x):
-    s = snap(x)
-    if s is not None:
-        return s
-    fr = Fraction(round(float(x) * 10 ** 6), 10 ** 6)
-    return [fr.numerator, fr.denominator]
+    """[n, d] with both inside 31 bits (TLC integers); [0, 0] marks a value that cannot be
+    rendered so (the specification treats it as too big to compute with)"""
+    try:
+        s = snap(x)
+        if s is None:
+            fr = Fraction(round(float(x) * 10 ** 6), 10 ** 6)
+            s = [fr.numerator, fr.denominator]
+    except (OverflowError, ValueError):     # inf / nan
+        return [0, 0]
+    if abs(s[0]) > INT_MAX or s[1] > INT_MAX:
+        return [0, 0]
+    return s
 
 
 # ---------------------------------------------------------------------------------------
